@@ -91,7 +91,7 @@ void buildWorld(Rng& r, BookWorld& W, int nLines) {
         if (r.chance(0.1)) { p = TextIO::readFEN("4k3/1P6/8/8/8/8/6p1/4K3 w - - 0 1"); cmd = "position fen 4k3/1P6/8/8/8/8/6p1/4K3 w - - 0 1"; }
         std::string moves;
         UndoInfo ui;
-        int plies = (int)r.range(1, 12);
+        int plies = r.chance(0.3) ? (int)r.range(12, 70) : (int)r.range(1, 12); // long lines reach checks and pins
         for (int i = 0; i < plies; i++) {
             std::vector<Move> lm;
             uci::legalMoves(p, lm);
@@ -122,6 +122,20 @@ void buildWorld(Rng& r, BookWorld& W, int nLines) {
         }
         W.probes.push_back(p);
         W.probeCmds.push_back(cmd + (moves.empty() ? "" : " moves" + moves));
+    }
+    // "collision" records: a pseudo-legal (preferably illegal) move stored under the key of a real probe position,
+    // as a corrupted move field or a 64-bit key collision would produce. A well-formed book may contain them too.
+    int nColl = (int)r.below(4);
+    for (int i = 0; i < nColl && !W.probes.empty(); i++) {
+        Position p = W.probes[r.below(W.probes.size())];
+        MoveList pl;
+        MoveGen::pseudoLegalMoves(p, pl);
+        std::vector<Move> lm;
+        uci::legalMoves(p, lm);
+        std::vector<Move> illegalPl;
+        for (int k = 0; k < pl.size; k++) if (!uci::containsMove(lm, pl[k])) illegalPl.push_back(pl[k]);
+        if (illegalPl.empty()) { if (pl.size == 0) continue; illegalPl.push_back(pl[(int)r.below(pl.size)]); }
+        recs.push_back({PolyglotBook::getHashKey(p), encodeMove(p, illegalPl[r.below(illegalPl.size())]), (U16)r.logRange(1, 60000)});
     }
     int noise = (int)r.range(0, 200);
     for (int i = 0; i < noise; i++) recs.push_back({r.next(), (U16)r.below(65536), (U16)r.below(65536)});
